@@ -33,7 +33,8 @@ def all_cfgs(shape='blog', extra=None):
 def gen_cases_default(rng, n, tier, cfgs=None, manualtx=False):
     cfgs = cfgs or (all_cfgs('blog') + all_cfgs('comp')[::4] + all_cfgs('blog', dict(excl_notes=True))[::4]
                     + all_cfgs('blog', dict(class_names=True))[::4] + all_cfgs('comp', dict(class_names=True))[::8]
-                    + all_cfgs('blog', dict(defaults=True))[::4] + all_cfgs('own')[::4])
+                    + all_cfgs('blog', dict(defaults=True))[::4] + all_cfgs('own')[::4]
+                    + all_cfgs('blog', dict(excl_fk=True))[::4])
     out = []
     for i in range(n):
         cfg = dict(cfgs[i % len(cfgs)])
@@ -57,7 +58,7 @@ def nontrivial_default(case, obs):
 
 def features_default(case, obs):
     f = ['shape=' + case['cfg']['shape'], 'strategy=' + case['cfg']['strategy']]
-    for k in ('changes', 'tracker', 'null_delete', 'autoflush', 'excl_notes', 'manualtx'):
+    for k in ('changes', 'tracker', 'null_delete', 'autoflush', 'excl_notes', 'excl_fk', 'manualtx'):
         if case['cfg'].get(k):
             f.append(k)
     for op in case['prog']:
